@@ -225,12 +225,12 @@ package optics
 //@ func focusable
 //@   props C01 C02
 //@   opt lemmas=drop_nth,drop_len
-//@   ensures result == validloc(cat, offset, ft)
-//@   loop 0 invariant 0 <= i && i <= len(fieldsof(cat)) && isstruct(cat) && validfield(drop(i, fieldsof(cat)), offset, ft) == validfield(fieldsof(cat), offset, ft)
+//@   ensures result == validloc(cat, offset, name, ft)
+//@   loop 0 invariant 0 <= i && i <= len(fieldsof(cat)) && isstruct(cat) && validfield(drop(i, fieldsof(cat)), offset, name, ft) == validfield(fieldsof(cat), offset, name, ft)
 
 //@ type *lens implements Lens
 //@   opt props = C01 C02
-//@   objinv validloc(rtypeof(S), self.Type.StructField.Offset + self.Type.RootOffs, rtypeof(A))
+//@   objinv validloc(rtypeof(S), self.Type.StructField.Offset + self.Type.RootOffs, self.Type.StructField.Name, rtypeof(A))
 //@   model get(self, s) = fget(s, self.Type.StructField.Offset + self.Type.RootOffs, A)
 //@   model put(self, s, a) = fput(s, self.Type.StructField.Offset + self.Type.RootOffs, a)
 //@   model foff(self) = self.Type.StructField.Offset + self.Type.RootOffs
@@ -247,7 +247,7 @@ package optics
 //@ func (*lens) Putt
 //@   props C01 C02
 //@   opt overflow=off
-//@   requires self != nil && validloc(rtypeof(S), self.Type.StructField.Offset + self.Type.RootOffs, rtypeof(A))
+//@   requires self != nil && validloc(rtypeof(S), self.Type.StructField.Offset + self.Type.RootOffs, self.Type.StructField.Name, rtypeof(A))
 //@   panics_when !dynptr(s, S)
 //@   ensures same_value: result == s
 //@   ensures writes_focus: deref(asptr(s, S)) == fput(old(deref(asptr(s, S))), self.Type.StructField.Offset + self.Type.RootOffs, a)
@@ -255,7 +255,7 @@ package optics
 //@ func (*lens) Gett
 //@   props C01 C02
 //@   opt overflow=off
-//@   requires self != nil && validloc(rtypeof(S), self.Type.StructField.Offset + self.Type.RootOffs, rtypeof(A))
+//@   requires self != nil && validloc(rtypeof(S), self.Type.StructField.Offset + self.Type.RootOffs, self.Type.StructField.Name, rtypeof(A))
 //@   panics_when !dynptr(s, S)
 //@   ensures reads_focus: result == fget(deref(asptr(s, S)), self.Type.StructField.Offset + self.Type.RootOffs, A)
 
@@ -264,7 +264,7 @@ package optics
 //@ func NewLens
 //@   props C01 C02
 //@   opt overflow=off
-//@   panics_when t.StructField.Type != rtypeof(A) || !validloc(rtypeof(S), loc(t), rtypeof(A))
+//@   panics_when t.StructField.Type != rtypeof(A) || !validloc(rtypeof(S), loc(t), t.StructField.Name, rtypeof(A))
 //@   ensures result != nil
 //@   ensures field_offset: result.foff() == loc(t)
 //@   ensures focus_is_that_field: forall s S :: result.get(s) == fget(s, result.foff(), A)
@@ -279,7 +279,7 @@ package optics
 //@ func NewReflector
 //@   props C01 C02
 //@   opt overflow=off
-//@   panics_when t.StructField.Type != rtypeof(A) || !validloc(rtypeof(S), loc(t), rtypeof(A))
+//@   panics_when t.StructField.Type != rtypeof(A) || !validloc(rtypeof(S), loc(t), t.StructField.Name, rtypeof(A))
 //@   ensures result != nil
 //@   ensures focus_is_that_field: result.roff() == loc(t)
 
